@@ -72,6 +72,12 @@ Definition x_aggregate (cars : list (Car (F:=float))) (total loco_mass : float) 
    OF (tp_fric_force_max t); OF (rp_bearing (tp_rp t)); OF (rp_rolling (tp_rp t));
    OF (rp_davis_b (tp_rp t)); OF (rp_cd_area (tp_rp t))].
 
+Definition x_aggregate_ov (ov : option float) (cars : list (Car (F:=float))) (total loco_mass : float) : list out :=
+  let t := aggregate_ov ov cars total loco_mass in
+  [OZ 0; OF (tp_length t); OF (tp_mass_static t); OF (tp_mass_rot t); OF (tp_mass_freight t);
+   OF (tp_fric_force_max t); OF (rp_bearing (tp_rp t)); OF (rp_rolling (tp_rp t));
+   OF (rp_davis_b (tp_rp t)); OF (rp_cd_area (tp_rp t))].
+
 (* certified-checker style evaluation of the braking-curve claim on the implementation's own
    point list (C03): every point has target <= limit *)
 Definition x_bp_target_le_limit (pts : list BPf) : list out :=
